@@ -139,7 +139,7 @@ def GET : Str := str "Get"
 
 /-- the keys preset to `true` in `usedNames` -/
 def reserved : List Str :=
-  [str "Reset", str "String", str "ProtoMessage", str "Marshal", str "Unmarshal",
+  [str "Reset", str "String", str "ProtoMessage", str "ProtoReflect", str "Marshal", str "Unmarshal",
    str "ExtensionRangeArray", str "ExtensionMap", str "Descriptor"]
 
 /-- the methods the generator really puts on every open-API message type -/
@@ -169,9 +169,10 @@ def maxLen (l : List Str) : Nat := l.foldr (fun s m => max s.length m) 0
 def mkUnique (used : List Str) (g : Bool) (name : Str) : Option Str :=
   mkUniqueAux used g (maxLen used + 1) name
 
-/-- the state change of `makeNameUnique`: `usedNames[name] = true; usedNames["Get"+name] = hasGetter` -/
+/-- the state change of `makeNameUnique`:
+`usedNames[name] = true; if hasGetter { usedNames["Get"+name] = true }` -/
 def markUsed (used : List Str) (g : Bool) (r : Str) : List Str :=
-  if g then (GET ++ r) :: r :: used else r :: used.filter (· != GET ++ r)
+  if g then (GET ++ r) :: r :: used else r :: used
 
 /-- the calls of `makeNameUnique` made by the field loop of `newMessage`, in order -/
 def resolveOps (used : List Str) : List (Str × Kind) → Option (List (Str × Kind))
